@@ -25,8 +25,8 @@ CONSTANTS
   InitVoters = {1, 2}
   AddVoters = {3}
   RemoveVoters = {1, 2}
-  MaxConfChanges = 2
-  MaxConfRefusals = 0
+  MaxConfChanges = 1
+  MaxConfRefusals = 1
   W_ConfChangeNoPendingCheck = FALSE
   W_AddedVoterCaughtUp = FALSE
 INIT Init
